@@ -5,9 +5,9 @@ cd "$(dirname "$0")/.."
 mkdir -p findings/final
 python3 tools/matrix.py --checks own --shard 0/2 --out findings/final/matrix0.json > findings/final/matrix0.log 2>&1 &
 python3 tools/matrix.py --checks own --shard 1/2 --out findings/final/matrix1.json > findings/final/matrix1.log 2>&1 &
-python3 tools/neutral.py --shard 0/3 --out findings/final/neutral0.json > findings/final/neutral0.log 2>&1 &
-python3 tools/neutral.py --shard 1/3 --out findings/final/neutral1.json > findings/final/neutral1.log 2>&1 &
-python3 tools/neutral.py --shard 2/3 --out findings/final/neutral2.json > findings/final/neutral2.log 2>&1 &
+python3 tools/neutral.py $NEUTRAL_ARGS --shard 0/3 --out findings/final/neutral0.json > findings/final/neutral0.log 2>&1 &
+python3 tools/neutral.py $NEUTRAL_ARGS --shard 1/3 --out findings/final/neutral1.json > findings/final/neutral1.log 2>&1 &
+python3 tools/neutral.py $NEUTRAL_ARGS --shard 2/3 --out findings/final/neutral2.json > findings/final/neutral2.log 2>&1 &
 if [ "$1" = "thorough" ]; then
   bash tools/runall.sh thorough > findings/final/thorough.log 2>&1 &
 fi
